@@ -163,7 +163,8 @@ class SymLog:
                 exc = USER_EXC[sum(map(ord, name)) % len(USER_EXC)](name)
                 RAISED.append(exc)
                 raise exc
-            return (APP, name, a, tuple(k.items()))
+            import sympool
+            return sympool.render(name, a, tuple(k.items()))
 
         f.__name__ = f.__qualname__ = name
         return f
